@@ -54,3 +54,13 @@ package router
 //@ site call EnqueueCQE assert itercalls("Process") == 1 && arg0 == iterres("Process", 0)
 //@ site loop 1 backedge assert itercalls("Process") == 1 && itercalls("EnqueueCQE") == 1
 //@ site return assert !ok
+
+// Enqueue accepts a submission exactly when it was put on the queue (C12: a submission reported accepted is
+// processed and answered by the worker; one reported refused is answered with queue-full by the caller; never
+// both, never neither).
+//@ func (*Router).Enqueue
+//@ props C12
+//@ nopanic C13
+//@ requires r != nil && r.sq != nil && !closed(r.sq)
+//@ ensures result == (sends(r.sq) == 1)
+//@ ensures sends(r.sq) <= 1
